@@ -16,6 +16,43 @@ TRUSTED = [
 
 F = "JP.Facts."
 
+# which module proves which regenerated fact (split by source file, so that an edit to one
+# file only touches the obligations of the properties anchored there)
+FACT_MODULE = {
+    "JP.Facts.applyReturnsNil_eq": "JP.Props.FactsPatch",
+    "JP.Facts.codecConditions_eq": "JP.Props.FactsCodec",
+    "JP.Facts.codecVars_eq": "JP.Props.FactsCodec",
+    "JP.Facts.conditions_eq": "JP.Props.FactsPatch",
+    "JP.Facts.decodePool_eq": "JP.Props.FactsCodec",
+    "JP.Facts.defaults_eq": "JP.Props.FactsPatch",
+    "JP.Facts.disallowUnknown_eq": "JP.Props.FactsCodec",
+    "JP.Facts.errorSites_eq": "JP.Props.FactsPatch",
+    "JP.Facts.hex_eq": "JP.Props.FactsCodec",
+    "JP.Facts.htmlSafeSet_eq": "JP.Props.FactsCodec",
+    "JP.Facts.initResets_eq": "JP.Props.FactsCodec",
+    "JP.Facts.inputWrites_eq": "JP.Props.FactsPatch",
+    "JP.Facts.keysMentions_eq": "JP.Props.FactsPatch",
+    "JP.Facts.lastKeys_sites_eq": "JP.Props.FactsCodec",
+    "JP.Facts.legacyConditions_eq": "JP.Props.FactsLegacy",
+    "JP.Facts.legacyDefaults_eq": "JP.Props.FactsLegacy",
+    "JP.Facts.legacyErrorSites_eq": "JP.Props.FactsLegacy",
+    "JP.Facts.legacyUsesStdlib_eq": "JP.Props.FactsLegacy",
+    "JP.Facts.maxNestingDepth_eq": "JP.Props.FactsCodec",
+    "JP.Facts.mergeConditions_eq": "JP.Props.FactsMerge",
+    "JP.Facts.newEncodeState_eq": "JP.Props.FactsCodec",
+    "JP.Facts.newOptions_eq": "JP.Props.FactsPatch",
+    "JP.Facts.newScanner_eq": "JP.Props.FactsCodec",
+    "JP.Facts.opDispatch_eq": "JP.Props.FactsPatch",
+    "JP.Facts.packageVarWrites_eq": "JP.Props.FactsPatch",
+    "JP.Facts.packageVars_eq": "JP.Props.FactsPatch",
+    "JP.Facts.safeSet_eq": "JP.Props.FactsCodec",
+    "JP.Facts.scanOpcodes_eq": "JP.Props.FactsCodec",
+    "JP.Facts.scanReset_eq": "JP.Props.FactsCodec",
+    "JP.Facts.useNumber_eq": "JP.Props.FactsCodec",
+    "JP.Facts.validGates_eq": "JP.Props.FactsPatch",
+    "JP.Facts.validateKinds_eq": "JP.Props.FactsPatch",
+}
+
 _apply_rule = ("documents are generated type-directed (sizes <= ~40 nodes, names/numbers/strings from pools with awkward spellings, three "
                "spelling modes), patches of 0-6 operations whose pointers are drawn relative to the document as it evolves (the prefix is "
                "applied with the real library), plus near-misses; a case is non-trivial when the property predicate returned ok (not "
@@ -24,15 +61,15 @@ _apply_rule = ("documents are generated type-directed (sizes <= ~40 nodes, names
 PLAN = {
     "C01": dict(
         streams=[("corpus", 0, 0), ("apply", 12000, 150000), ("ensure", 2000, 20000), ("allow", 2000, 20000), ("bytes", 1500, 20000),
-                 ("small", 0, 0)],
+                 ("small", 0, 0), ("index", 0, 0)],
         theorems=[],
-        facts=[F + "opDispatch_eq", F + "defaults_eq", F + "newOptions_eq", F + "errorSites_eq"],
+        facts=[F + "opDispatch_eq", F + "defaults_eq", F + "newOptions_eq", F + "errorSites_eq", F + "conditions_eq"],
         rule=_apply_rule,
     ),
     "C02": dict(
         streams=[("corpus", 0, 0), ("merge", 12000, 150000), ("bytes", 1500, 20000)],
         theorems=[],
-        facts=[F + "validGates_eq"],
+        facts=[F + "validGates_eq", F + "mergeConditions_eq"],
         rule="(document, merge patch) pairs: the patch is derived from the document (touches, deletes, nests, replaces by type) so that most "
              "members are shared; nulls at every depth, arrays containing objects with nulls, scalar/array/null roots; non-trivial = C02 "
              "predicate ok (document non-null, names duplicate-free); distinct = distinct (document, patch) text",
@@ -40,7 +77,7 @@ PLAN = {
     "C03": dict(
         streams=[("corpus", 0, 0), ("create", 12000, 150000), ("bytes", 1500, 20000)],
         theorems=[],
-        facts=[F + "validGates_eq", F + "useNumber_eq"],
+        facts=[F + "validGates_eq", F + "useNumber_eq", F + "mergeConditions_eq"],
         rule="(A, B) pairs with B derived from A by random edits (delete/add/replace/reorder members, edit elements), arrays of objects, "
              "mismatched roots, magnitudes beyond float64; the produced patch is re-applied with the library's MergePatch and with the "
              "reference merge; non-trivial = C03 predicate ok; distinct = distinct (A, B) text",
@@ -49,22 +86,22 @@ PLAN = {
         streams=[("corpus", 0, 0), ("bytes", 12000, 120000), ("apply", 3000, 30000), ("entry", 2000, 20000), ("decode", 2000, 20000),
                  ("legacy-bytes", 6000, 60000)],
         theorems=[],
-        facts=[F + "validGates_eq"],
+        facts=[F + "validGates_eq", F + "conditions_eq", F + "mergeConditions_eq", F + "codecConditions_eq", F + "legacyConditions_eq"],
         rule="arbitrary byte strings (hand-made malformed texts, corrupted well-formed texts, deep nesting at 9999/10000/10001) and awkward "
              "well-formed values (null roots, nulls in arrays, empty keys, root-replacing prefixes) into every entry point of both packages, "
              "each call under recover() and a 180 s watchdog; non-trivial = the call returned (C04 ok); distinct = distinct request",
     ),
     "C05": dict(
-        streams=[("corpus", 0, 0), ("apply", 12000, 150000), ("merge", 6000, 60000), ("small", 0, 0)],
+        streams=[("corpus", 0, 0), ("apply", 12000, 150000), ("merge", 6000, 60000), ("small", 0, 0), ("index", 0, 0)],
         theorems=[],
-        facts=[F + "useNumber_eq", F + "opDispatch_eq"],
+        facts=[F + "useNumber_eq", F + "opDispatch_eq", F + "conditions_eq"],
         rule=_apply_rule + "; the output is read back by the order- and literal-preserving reference parser and compared with the ORDERED "
              "specification result (Value.beq)",
     ),
     "C06": dict(
         streams=[("corpus", 0, 0), ("equal", 12000, 150000), ("bytes", 1500, 20000)],
         theorems=[],
-        facts=[F + "validGates_eq"],
+        facts=[F + "validGates_eq", F + "conditions_eq"],
         rule="pairs (a, b) with b a copy, a member-shuffle or a small mutation of a, independently re-spelled (whitespace, escapes), a few "
              "corrupted; both orders are asked; non-trivial = C06 predicate ok (not numerically-equal-but-differently-spelled, names "
              "duplicate-free); distinct = distinct (a, b) text",
@@ -72,15 +109,15 @@ PLAN = {
     "C07": dict(
         streams=[("corpus", 0, 0), ("compose", 12000, 150000)],
         theorems=[],
-        facts=[F + "validGates_eq"],
+        facts=[F + "validGates_eq", F + "mergeConditions_eq"],
         rule="(P1, P2, D) with P1 derived from D and P2 derived from merge(D,P1) or shaped after P1 (overlaps at depth), both the reference "
              "merge and the library's MergePatch applied; non-trivial = C07 predicate ok (compatible patches, non-null D); distinct = distinct "
              "request",
     ),
     "C08": dict(
-        streams=[("corpus", 0, 0), ("apply", 12000, 150000), ("limit", 3000, 30000), ("small", 0, 0)],
+        streams=[("corpus", 0, 0), ("apply", 12000, 150000), ("limit", 3000, 30000), ("small", 0, 0), ("index", 0, 0)],
         theorems=[],
-        facts=[F + "errorSites_eq", F + "applyReturnsNil_eq", F + "opDispatch_eq"],
+        facts=[F + "errorSites_eq", F + "applyReturnsNil_eq", F + "opDispatch_eq", F + "conditions_eq"],
         rule=_apply_rule + "; for a failing patch the harness also applies the patch cut after its first failing operation; non-trivial = C08 "
              "predicate ok",
     ),
@@ -106,7 +143,7 @@ PLAN = {
     "C11": dict(
         streams=[("corpus", 0, 0), ("decode", 12000, 150000), ("entry", 2000, 20000)],
         theorems=[],
-        facts=[F + "validateKinds_eq", F + "validGates_eq", F + "errorSites_eq"],
+        facts=[F + "validateKinds_eq", F + "validGates_eq", F + "errorSites_eq", F + "conditions_eq"],
         rule="patch documents built member by member with systematic mutations (absent, null, retyped, duplicated, upper-cased, reordered "
              "members; unknown and wrong-case kinds; non-object elements; non-array roots; corrupted text); non-trivial = C11 predicate ok; "
              "distinct = distinct text",
@@ -114,22 +151,22 @@ PLAN = {
     "C12": dict(
         streams=[("corpus", 0, 0), ("limit", 12000, 120000), ("legacy-limit", 3000, 30000)],
         theorems=[],
-        facts=[F + "defaults_eq", F + "newOptions_eq", F + "errorSites_eq"],
+        facts=[F + "defaults_eq", F + "legacyDefaults_eq", F + "newOptions_eq", F + "errorSites_eq", F + "conditions_eq"],
         rule="patches containing copies; the cumulative copy totals are learnt from the library's own error values and the limit is set to "
              "total-1 / total / total+1 of a random copy; both EscapeHTML settings; non-trivial = C12 predicate ok with a positive limit; "
              "distinct = distinct request",
     ),
     "C13": dict(
-        streams=[("corpus", 0, 0), ("allow", 12000, 120000)],
+        streams=[("corpus", 0, 0), ("allow", 12000, 120000), ("index", 0, 0)],
         theorems=[],
-        facts=[F + "errorSites_eq"],
+        facts=[F + "errorSites_eq", F + "conditions_eq"],
         rule="patches rich in removes of near-miss paths, run three ways: option on; one operation at a time to find the removes the option "
              "skips; option off with those removes deleted; non-trivial = C13 predicate ok; distinct = distinct request",
     ),
     "C14": dict(
         streams=[("corpus", 0, 0), ("ensure", 12000, 120000)],
         theorems=[],
-        facts=[F + "errorSites_eq"],
+        facts=[F + "errorSites_eq", F + "conditions_eq"],
         rule="adds whose path leaves an existing prefix and continues with 1-4 fresh tokens (names, indices at/after the end, '-', names "
              "with ~ and /, a few out-of-domain spellings), followed by further operations; non-trivial = C14 predicate ok (in domain); "
              "distinct = distinct request",
@@ -138,14 +175,14 @@ PLAN = {
         streams=[("corpus", 0, 0), ("apply", 10000, 100000), ("testtr", 4000, 40000), ("merge", 3000, 30000), ("compose", 2000, 20000),
                  ("create", 2000, 20000), ("bytes", 1500, 15000)],
         theorems=[],
-        facts=[F + "safeSet_eq", F + "htmlSafeSet_eq", F + "hex_eq"],
+        facts=[F + "safeSet_eq", F + "htmlSafeSet_eq", F + "hex_eq", F + "conditions_eq", F + "codecConditions_eq"],
         rule=_apply_rule + "; output bytes are compared exactly with the model, parsed by the reference parser, scanned for raw < > & "
              "U+2028/9 and new escapes, ApplyIndent compared with the model's Indent of Apply, passing tests removed and bytes compared",
     ),
     "C16": dict(
         streams=[("corpus", 0, 0), ("scan", 0, 0), ("valid", 12000, 150000), ("entry", 4000, 40000), ("validx", 0, 0, 4)],
         theorems=[],
-        facts=[F + "maxNestingDepth_eq", F + "validGates_eq", F + "scanOpcodes_eq"],
+        facts=[F + "maxNestingDepth_eq", F + "validGates_eq", F + "scanOpcodes_eq", F + "codecConditions_eq"],
         rule="the scanner's whole transition table (31 states x 16 stacks x 256 bytes, dumped by the verif hook) compared row by row with "
              "the model's step; texts: hand-made malformed, generated well-formed in three spellings, corrupted, depth 9999/10000/10001, all "
              "strings up to length 4 over a 16-byte alphabet; every public entry point on each; non-trivial = C16 predicate ok; distinct = "
@@ -154,7 +191,7 @@ PLAN = {
     "C17": dict(
         streams=[("corpus", 0, 0), ("codec", 12000, 120000), ("std", 6000, 60000), ("e2x", 0, 0)],
         theorems=[],
-        facts=[F + "safeSet_eq", F + "htmlSafeSet_eq", F + "hex_eq", F + "useNumber_eq"],
+        facts=[F + "safeSet_eq", F + "htmlSafeSet_eq", F + "hex_eq", F + "useNumber_eq", F + "codecConditions_eq"],
         rule="the embedded codec's Compact/Indent/HTMLEscape/Unmarshal+MarshalEscaped/UnmarshalWithKeys/Marshal(string) on generated and "
              "corrupted texts, compared byte for byte with the model; differential runs against encoding/json on dynamic values, tagged "
              "structs, Encoder and Decoder streams (STD lines: testing, not proof); non-trivial = C17 predicate ok",
@@ -162,13 +199,13 @@ PLAN = {
     "C18": dict(
         streams=[("legacy-apply", 12000, 120000), ("legacy-bytes", 2000, 20000)],
         theorems=[],
-        facts=[F + "legacyErrorSites_eq", F + "defaults_eq", F + "legacyUsesStdlib_eq"],
+        facts=[F + "legacyErrorSites_eq", F + "legacyDefaults_eq", F + "legacyUsesStdlib_eq", F + "legacyConditions_eq"],
         rule=_apply_rule + "; run against a staged copy of the root package built from the working tree",
     ),
     "C19": dict(
         streams=[("legacy-merge", 8000, 80000), ("legacy-create", 6000, 60000), ("legacy-compose", 6000, 60000), ("legacy-equal", 6000, 60000)],
         theorems=[],
-        facts=[F + "legacyUsesStdlib_eq"],
+        facts=[F + "legacyUsesStdlib_eq", F + "legacyConditions_eq"],
         rule="as C02/C03/C06/C07 but against the staged root package, within the domain the statement gives (object/array patches, "
              "float64-exact numbers for CreateMergePatch, escape-free container-rooted texts for Equal)",
     ),
